@@ -2,6 +2,8 @@ package verifsim
 
 import (
 	"crypto/x509"
+	"crypto/x509/pkix"
+	"encoding/asn1"
 	"fmt"
 	"math/big"
 	"strings"
@@ -9,7 +11,7 @@ import (
 
 // C03 — Mode composition truth table. The full grid
 //
-//	mode(6) x OCSP outcome(4) x aia_strict(2) x CRL outcome(4) x cdp_strict(2) x storage(2) x chain shape(3) = 2304
+//	mode(6) x OCSP outcome(4) x aia_strict(2) x CRL outcome(5) x cdp_strict(2) x storage(2) x chain shape(3) = 2880
 //
 // is one world per cell: the validator is built from JSON through Provision (so mode parsing and the
 // default are part of what is checked), the responder and the CRL origin are scripted to produce
@@ -19,21 +21,21 @@ import (
 
 var c03modes = []string{"", "prefer_ocsp", "prefer_crl", "ocsp_only", "crl_only", "disabled"}
 var c03ocsp = []string{"no-aia", "good", "revoked", "unavailable"}
-var c03crl = []string{"none-known", "listed", "not-listed", "cdp-unavailable"}
+var c03crl = []string{"none-known", "listed", "not-listed", "cdp-unavailable", "internal-failure"}
 var c03chains = []string{"ee-ca", "ee-int-root", "two-chains"}
 
-const c03cells = 6 * 4 * 2 * 4 * 2 * 2 * 3 // = 2304
+const c03cells = 6 * 4 * 2 * 5 * 2 * 2 * 3 // = 2880
 
 func init() {
 	register(&PropDef{ID: "C03", Plan: func(tier string) Plan {
 		if tier == "thorough" {
 			return Plan{Runs: c03cells, Enumerated: c03cells, Exhaustive: true, Level: "exploration", Rule: c03rule}
 		}
-		return Plan{Runs: 768, Enumerated: 768, Level: "exploration", Rule: c03rule + " (quick: every 3rd cell with a drifting offset, a fixed 1/3 sample)"}
+		return Plan{Runs: c03cells / 3, Enumerated: c03cells / 3, Level: "exploration", Rule: c03rule + " (quick: every 3rd cell with a drifting offset, a fixed 1/3 sample)"}
 	}, Run: runC03})
 }
 
-const c03rule = "one run = one cell of mode(unset, prefer_ocsp, prefer_crl, ocsp_only, crl_only, disabled) x OCSP outcome(no AIA, good, revoked, unavailable) x aia_strict x CRL outcome(none known, listed, not listed, CDP unavailable) x cdp_strict x storage(memory, disk) x chain shape(EE+CA, EE+intermediate+root, two chains); oracle: reject iff (ocspOn and (revoked or (unavailable and aia_strict))) or (crlOn and (listed or (cdp unavailable and cdp_strict))), plus side effects: disabled => no request and no work_dir operation after Provision, ocsp_only => no CRL origin contacted and work_dir untouched, crl_only => no responder contacted; non-trivial = the expected verdict is reject or a mechanism is disabled by the mode"
+const c03rule = "one run = one cell of mode(unset, prefer_ocsp, prefer_crl, ocsp_only, crl_only, disabled) x OCSP outcome(no AIA, good, revoked, unavailable) x aia_strict x CRL outcome(none known, listed, not listed, CDP unavailable, internal failure = the stored record of the listed certificate is undecodable at lookup time) x cdp_strict x storage(memory, disk) x chain shape(EE+CA, EE+intermediate+root, two chains); oracle: reject iff (ocspOn and (revoked or (unavailable and aia_strict))) or (crlOn and (listed or internal failure or (cdp unavailable and cdp_strict))), plus side effects: disabled => no request and no work_dir operation after Provision, ocsp_only => no CRL origin contacted and work_dir untouched, crl_only => no responder contacted; non-trivial = the expected verdict is reject or a mechanism is disabled by the mode"
 
 func runC03(h *Harness) {
 	i := h.Idx
@@ -46,8 +48,8 @@ func runC03(h *Harness) {
 	i /= 4
 	aiaStrict := i%2 == 1
 	i /= 2
-	cr := c03crl[i%4]
-	i /= 4
+	cr := c03crl[i%5]
+	i /= 5
 	cdpStrict := i%2 == 1
 	i /= 2
 	storage := []string{"memory", "disk"}[i%2]
@@ -66,6 +68,30 @@ func runC03(h *Harness) {
 		return
 	}
 	h.Quiesce()
+	crlOnCfg := mode == "" || mode == "prefer_ocsp" || mode == "prefer_crl" || mode == "crl_only"
+	if cr == "internal-failure" && crlOnCfg {
+		// the list is loaded through another certificate first, then the stored record of the listed certificate is
+		// damaged: the lookup of the cell's handshake meets an internal failure
+		pre := w.A.Issue(EEOpts{Serial: loc.Never[1], CDP: []string{loc.URL}})
+		pc := w.ChainFor(pre, w.A)
+		if x := h.Handshake(n, "preload", pc); x.Err != nil && cdpStrict {
+			h.Violation("C03.setup", "preload-failed", "fault-free strict first load failed: %v", x.Err)
+			return
+		}
+		h.Quiesce()
+		s := repoStore(n.Repo())
+		if s == nil {
+			h.Violation("C03.setup", "no-store", "cannot reach the loaded list's store")
+			return
+		}
+		issuerRDN := &pkix.RDNSequence{}
+		if _, err := asn1.Unmarshal(w.A.Cert.RawSubject, issuerRDN); err != nil {
+			panic(err)
+		}
+		h.Call(n, "inject", func() {
+			c09injectStore(h, s, nil, storage, "undecodable-value", issuerRDN.String()+"_"+loc.Common.String(), true)
+		})
+	}
 	osAfterProv := len(h.Disk.OsLog)
 	stAfterProv := h.Disk.StOps()
 	// the certificate of the cell
@@ -81,6 +107,8 @@ func runC03(h *Harness) {
 	case "cdp-unavailable":
 		cdp = []string{loc.URL}
 		loc.State = oDown
+	case "internal-failure":
+		serial, cdp = loc.Common, []string{loc.URL}
 	}
 	switch oc {
 	case "no-aia":
@@ -104,7 +132,7 @@ func runC03(h *Harness) {
 	h.R.Checks++
 	ocspOn := mode == "" || mode == "prefer_ocsp" || mode == "prefer_crl" || mode == "ocsp_only"
 	crlOn := mode == "" || mode == "prefer_ocsp" || mode == "prefer_crl" || mode == "crl_only"
-	reject := (ocspOn && (oc == "revoked" || (oc == "unavailable" && aiaStrict))) || (crlOn && (cr == "listed" || (cr == "cdp-unavailable" && cdpStrict)))
+	reject := (ocspOn && (oc == "revoked" || (oc == "unavailable" && aiaStrict))) || (crlOn && (cr == "listed" || cr == "internal-failure" || (cr == "cdp-unavailable" && cdpStrict)))
 	if reject || !ocspOn || !crlOn {
 		h.R.NonTrivial = true
 	}
